@@ -70,7 +70,8 @@ OneofOptsNone == {"none"}
 MsgOptsAll == {"none", "wrapper_deprecated", "type_object", "type_object_any", "type_oneof", "description", "psm", "psm_part", "list_request"}
 MsgOptsNone == {"none"}
 MsgOptsFew == {"none", "type_oneof", "psm"}
-EnumOptsAll == {"none", "no_default", "info_fields", "value_info"}
+\* value_prefixed: a value whose short name begins with the enum's prefix once more (E0_E0_X)
+EnumOptsAll == {"none", "no_default", "info_fields", "value_info", "value_prefixed"}
 EnumOptsNone == {"none"}
 RecAll == {"self", "mutual", "map", "repeated", "optional", "oneof", "flatchild", "flatclash", "oneofclash", "flatoneof"}
 \* reduced pools for pair exploration: one representative per class of the kind switch
